@@ -593,3 +593,38 @@ def normalize(p):
     elif op in ('required', 'wrap'):
         p['key'] = normalize(p['key'])
     return p
+
+
+def validate_rows(check, module, rows, label, chunk=4000):
+    """vlib.validate_rows, which also returns how many rows the specification left unjudged (rows
+    whose outcome depends on an order the documentation leaves open): (rejects, skipped)."""
+    import os
+    import shutil
+    import tempfile
+    from concurrent.futures import ThreadPoolExecutor
+    rejects, skipped = [], 0
+    scratch = tempfile.mkdtemp(prefix='glomverif_rows_')
+    try:
+        chunks = [rows[i:i + chunk] for i in range(0, len(rows), chunk)]
+
+        def one(ci):
+            path = os.path.join(scratch, 'rows_%d.ndjson' % ci)
+            vlib.write_ndjson(path, chunks[ci])
+            return ci, vlib.run_tlc(module, workers=1, env={'TRACE_FILE': path}, timeout=3600)
+        with ThreadPoolExecutor(max_workers=min(8, max(1, len(chunks)))) as ex:
+            for ci, res in ex.map(one, range(len(chunks))):
+                vlib.tlc_must_pass(res, '%s chunk %d' % (module, ci))
+                done = [j for j in res['json'] if 'done' in j]
+                if not done or done[-1]['done'] != len(chunks[ci]):
+                    raise vlib.MachineryError('%s consumed %s of %d rows' % (module, done, len(chunks[ci])))
+                skipped += done[-1].get('skipped', 0)
+                check.add_tlc(res, '%s[%s#%d]' % (module, label, ci))
+                seen = set()
+                for j in res['json']:
+                    if 'reject' in j and j['reject'] not in seen:
+                        seen.add(j['reject'])
+                        rejects.append((chunks[ci][j['reject'] - 1], j))
+                check.validated(len(chunks[ci]) - len(seen) - done[-1].get('skipped', 0))
+    finally:
+        shutil.rmtree(scratch, ignore_errors=True)
+    return rejects, skipped
